@@ -4,3 +4,5 @@ pub mod graph;
 pub mod reject;
 pub mod simrun;
 pub mod trx;
+pub mod init;
+pub mod session;
